@@ -724,7 +724,9 @@ fn build_ref_message(c: &MsgCase, response: bool) -> Vec<u8> {
         return re::tlv(0x30, &body);
     }
     let mut sc = re::tlv(0x04, &c.engine_id);
-    sc.extend(re::tlv(0x04, &[]));
+    // contextName: empty as the client sends it, or (legal, unusual) non-empty - derived from the case so that it is reproducible
+    let ctx_name: Vec<u8> = if c.msg_id % 3 == 0 { c.user.iter().take(20).cloned().collect() } else { vec![] };
+    sc.extend(re::tlv(0x04, &ctx_name));
     sc.extend(&pdu);
     let data = re::tlv(0x30, &sc);
     let mut usm = re::tlv(0x04, &c.engine_id);
